@@ -5,8 +5,43 @@
 //! crate's own debug assertions panic (kept by the safety filter of `Ctx`), ASan / Miri report on
 //! their builds, and written buffers are re-validated as UTF-8.
 
-use crate::ctx::Ctx;
+use vaporetto::Sentence;
+use vgen::json::{clip, J};
+use vgen::rng::{case_seed, Rng};
+
+use crate::ctx::{guard, panic_site, Ctx};
+use crate::p_filters::FilterSpec;
+use crate::p_sentence::{sut_from, Fmt};
+use crate::sut::observe;
 use crate::{p_filters, p_history, p_score, p_sentence};
+
+/// Whatever the three parsers ACCEPT is a sentence "reachable through the public API": every filter,
+/// writer and iterator runs on it (hostile, valid and mutated input strings).
+fn parsed_sentences(ctx: &mut Ctx, k: u64, n: usize) {
+    let mut rng = Rng::new(case_seed(ctx.seed, "C18parsed", k));
+    const FIXED: &[&str] = &["\\", "a\\", "\\ ", "a/", "a b/\\", " ", "a|", "a-", "a "];
+    for i in 0..n {
+        let f = [Fmt::Raw, Fmt::Tok, Fmt::Part][i % 3];
+        let s: String = if i < FIXED.len() && k % 16 == 0 { FIXED[i].to_string() } else { vgen::text::hostile_string(&mut rng, 12) };
+        let r = guard(|| -> Option<()> {
+            let mut sent: Sentence<'static, 'static> = sut_from(f, &s).ok()?;
+            for spec in [FilterSpec::Linebreaks, FilterSpec::WsConst(5), FilterSpec::WsConst(1), FilterSpec::Graphemes, FilterSpec::Tagger(vec![("a".into(), vec![Some("T".into())])])] {
+                spec.build().filter(&mut sent);
+                let _ = observe(&sent, false);
+            }
+            Some(())
+        });
+        ctx.eval(1);
+        match r {
+            Ok(Some(())) => ctx.count("accepted_parser_outputs_run_through_all_filters", 1),
+            Ok(None) => {}
+            Err(p) => ctx.violation(
+                &format!("C18:filters_on_parsed_sentence_panicked:{}", panic_site(&p)),
+                J::obj(vec![("format", J::s(f.name())), ("input", J::s(clip(&s, 80))), ("panic", J::s(&p))]),
+            ),
+        }
+    }
+}
 
 pub fn run_c18u(ctx: &mut Ctx, from: u64, to: u64, tiny: bool) {
     ctx.safety_only = true;
@@ -26,6 +61,8 @@ pub fn run_c18u(ctx: &mut Ctx, from: u64, to: u64, tiny: bool) {
                     p_sentence::run_c04(ctx, k * 2, k * 2 + 2);
                     ctx.begin_case(k);
                     p_sentence::run_c05r(ctx, k, k + 1);
+                    ctx.begin_case(k);
+                    parsed_sentences(ctx, k, 6);
                 }
                 _ => p_score::run_c14(ctx, k, k + 1, true),
             }
@@ -50,6 +87,8 @@ pub fn run_c18u(ctx: &mut Ctx, from: u64, to: u64, tiny: bool) {
         p_sentence::run_c04(ctx, a, b);
         ctx.begin_case(k);
         p_sentence::run_c05r(ctx, a, b);
+        ctx.begin_case(k);
+        parsed_sentences(ctx, k, 12);
         ctx.begin_case(k);
         // boundary / tag states reachable through histories of public API calls
         p_history::run_c08(ctx, k * 4, k * 4 + 4);
